@@ -292,6 +292,25 @@ def execute(ctx, case: dict) -> None:
                 a.subnet_of(b)
                 b.subnet_of(a)
                 functions.subnet_of(top=b, bottom=a)
+        elif kind == "nested-config":
+            # groups nested three levels deep in a configuration: the library may refuse them (TypeError), but if it answers,
+            # the answer is about *all* members (G = 10.0.0.0/30 + H, H = 10.0.0.1 + K, K = 9.9.9.9)
+            import cisco_acl  # pylint: disable=import-outside-toplevel
+
+            cfg = ("object-group network K\n host 9.9.9.9\nobject-group network H\n host 10.0.0.1\n group-object K\n"
+                   "object-group network G\n 10.0.0.0 255.255.255.252\n group-object H\n"
+                   "ip access-list extended A\n permit ip object-group G any\n permit ip object-group H any\n")
+            try:
+                acl = cisco_acl.acls(cfg, platform="ios")[0]
+            except (TypeError, ValueError):
+                ctx.count("nested_config_groups_refused")
+            else:
+                ctx.count("nested_config_groups_answered")
+                for idx, outside in ((0, "9.9.9.9"), (1, "9.9.9.9")):
+                    addr = acl.items[idx].srcaddr
+                    if addr.subnet_of(Address("10.0.0.0 0.0.0.3", platform="ios")):
+                        ctx.violation(case, "a group nested in the configuration tests as subnet of a network that does not hold all its members",
+                                      {"group": addr.line, "member_outside": outside, "members_seen": [i.line for i in addr.items]})
         elif kind == "ag":
             a = AddressAg(case["a"], platform=platform, max_ncwb=20)
             b = AddressAg(case["b"], platform=platform, max_ncwb=20)
@@ -335,6 +354,12 @@ def execute(ctx, case: dict) -> None:
 
 def gen_cases(ctx):
     rng = ctx.rng
+    if ctx.shard == 8:
+        # both sides wide (about 2^11 x 2^10 network pairs): contained, and contained the other way round not
+        for a, b in (("10.0.0.8 0.0.255.6", "10.0.0.0 0.0.255.14"), ("10.0.0.0 0.0.255.14", "10.0.0.8 0.0.255.6")):
+            yield {"k": "pair", "platform": "ios", "a": a, "b": b, "rel": "wide-wide", "ka": 10, "kb": 11}
+    if ctx.shard == 9:
+        yield {"k": "nested-config", "platform": "ios", "a": "object-group G", "b": "10.0.0.0 0.0.0.3", "rel": "nested", "ka": 0, "kb": 0}
     if ctx.shard == 0:
         # one pair above the default limit (2^17 networks on one side, a single network on the other)
         for a, b in (("10.0.0.0 1.1.255.254", "10.0.0.0 0.1.255.255"), ("host 11.0.3.4", "10.0.0.0 1.1.255.254"),
